@@ -17,7 +17,7 @@ import tempfile
 import numpy as np
 from hypothesis import strategies as st
 
-from ..core import Given
+from ..core import Given, deep
 from ..findings import is_open
 from ..oracles import adf_writers as W
 
@@ -125,7 +125,7 @@ ISOTOPES = ["deuterium", "tritium", "helium3"]
 EL = {n: getattr(E, n) for n in NAMES + ISOTOPES}
 _Z = {n: EL[n].atomic_number for n in EL}
 SIZES = [1, 2, 7, 8, 9, 15, 16, 17, 24, 25, 32, 33, 40]
-_size = st.one_of(st.integers(1, 40), st.sampled_from(SIZES), st.integers(1, 12))
+_size = st.one_of(st.integers(1, deep(40, 99)), st.sampled_from(SIZES), st.integers(1, 12))
 _seed = st.integers(0, 2 ** 32 - 1)
 _small = st.one_of(st.integers(1, 16), st.sampled_from([1, 2, 8, 9, 24]))      # sizes of the second (interfering) file
 TRAILER = ["C", "C  Written by the C08 oracle (vf/oracles/adf_writers.py); numbers are synthetic.", "C",
